@@ -67,11 +67,29 @@ def gen_chain(schema, c, rnd, maxlen=4):
 
 
 def born_per_step(schema, acts):
+    """number of handles per class after each step, from the calls issued (persisting
+    and reloading renumbers the live instances 1..n)"""
     born = {c: 0 for c in schema['classes']}
+    live = {c: set() for c in schema['classes']}
     out = []
     for a in acts:
         if a[0] in ('New', 'NewUnknown'):
             born[a[1]] += 1
+            live[a[1]].add(born[a[1]])
+        elif a[0] == 'NewRow':
+            c = a[1]['c']
+            born[c] += 1
+            live[c].add(born[c])
+        elif a[0] == 'Delete':
+            live[a[1]].discard(a[2])
+        elif a[0] == 'SaveLoad':
+            for c in born:
+                born[c] = len(live[c])
+                live[c] = set(range(1, born[c] + 1))
+        elif a[0] == 'LoadBuild':
+            for c in born:
+                born[c] = sum(1 for r in a[1] if r['c'] == c)
+                live[c] = set(range(1, born[c] + 1))
         out.append(dict(born))
     return out
 
